@@ -15,6 +15,22 @@ mod vm;
 use std::fmt::Write as _;
 use std::io::{BufRead, BufWriter, Write};
 
+/// FEAT nchars char* -> 0 (accepted, extension off) | 1 (accepted, extension on) | 2 (refused):
+/// `Features::from_str`, the value parser behind `-f` / `--features` (public API, no hook involved).
+fn run_feat(args: &[u64]) -> Vec<Vec<u64>> {
+    let n = args[0] as usize;
+    let text: String = args[1..1 + n]
+        .iter()
+        .map(|x| char::from_u32(*x as u32).unwrap_or('\u{FFFD}'))
+        .collect();
+    let r = std::panic::catch_unwind(|| text.parse::<lace::features::Features>());
+    vec![vec![match r {
+        Ok(Ok(f)) => (f.to_string() == "stack") as u64,
+        Ok(Err(_)) => 2,
+        Err(_) => 101,
+    }]]
+}
+
 fn main() {
     let args: Vec<String> = std::env::args().collect();
     if args.len() != 3 {
@@ -44,6 +60,7 @@ fn main() {
             "DBGS" => dbg::run_dbgs(&nums),
             "C20" => edit::run_c20(&nums),
             "C14" => cmd::run_c14(&nums),
+            "FEAT" => run_feat(&nums),
             other => panic!("unknown case kind {other}"),
         };
         writeln!(output, "# {kind}").unwrap();
